@@ -82,6 +82,7 @@ type pathAnalysis struct {
 	// ok's body establishes whenever it returns that outcome; `actual` maps a
 	// value of the predicate's body (a parameter) to the caller's argument.
 	condTr    condTrFn
+	cur       *ssa.BasicBlock // the block whose instructions are being transferred
 	bind      map[ssa.Value]ssa.Value
 	depth     int
 	leafOf    map[*ssa.Phi]ssa.Value // tracked phi -> its single non-constant source, if any
@@ -224,6 +225,7 @@ func (pa *pathAnalysis) evalEdge(ph *ssa.Phi, e ssa.Value, t tuple) uint64 {
 // at the end of the block. visit (optional) is called with the tuple before
 // each instruction.
 func (pa *pathAnalysis) step(b *ssa.BasicBlock, t tuple, visit func(in ssa.Instruction, t tuple)) []tuple {
+	pa.cur = b
 	cur := []tuple{t}
 	for _, in := range b.Instrs {
 		var next []tuple
